@@ -7,6 +7,7 @@ import Proofs.KNCorpus2
 import Proofs.KNCorpus3
 import Proofs.KNInterp2
 import Proofs.KNBlocks
+import Proofs.KNCorpus5
 /-!
 # C05 — lmplz computes interpolated modified Kneser-Ney estimates
 
@@ -190,6 +191,16 @@ theorem written_set (cfg : Cfg) (pv : Bool) (fallback : Option Disc) (corpus : L
       ((g.length = 1 ∧ (g = [unk] ∨ g = [bos])) ∨ ((∃ s ∈ corpus, g ∈ windows g.length (padded1 s)) ∧ g ≠ [bos])) ∧
       Spec.pruned cfg (countFull cfg.order corpus) g = false :=
   KV.KN.Norm.written_set_corpus cfg pv fallback corpus m hm h2 hne hw hthr g
+
+/-- **written_set, order-1 model**: `<unk>`, `<s>`, `</s>`, and every corpus word whose count exceeds
+the unigram threshold and which is not excluded -/
+theorem written_set1 (cfg : Cfg) (pv : Bool) (fallback : Option Disc) (corpus : List (List Word)) (m : Model)
+    (hm : Spec.estimate cfg pv fallback corpus = .ok m) (h1 : cfg.order = 1) (hne : corpus ≠ [])
+    (hw : ∀ s ∈ corpus, ∀ w ∈ s, 3 ≤ w) (g : Gram) :
+    (Query.lookup m.orders g).isSome = true ↔
+      g = [unk] ∨ g = [bos] ∨ ∃ w, g = [w] ∧ ((∃ s ∈ corpus, w ∈ s) ∨ w = eos) ∧
+        (w = eos ∨ (cfg.thr 0 < (occurrences 1 corpus).count [w] ∧ cfg.excl w = false)) :=
+  KV.KN.Norm.written_set_corpus1 cfg pv fallback corpus m hm h1 hne hw g
 
 /-- what "pruned" means -/
 theorem pruned_eq_false_iff (cfg : Cfg) (full : Spec.Table) (g : Gram) :
